@@ -345,6 +345,132 @@ CORPUS = [
 ]
 
 
+
+# ---------------------------------------------------------------- systematic part of every quick run
+BAD_NUMS = [b"", b"x", b"7x", b"-1", b"+1", b" 1", b"1 ", b"0x10", b"1e3", b"2147483647", b"2147483648", b"4294967295",
+            b"4294967296", b"9223372036854775807", b"9223372036854775808", b"18446744073709551615",
+            b"18446744073709551616", b"99999999999999999999999999"]
+BAD_MODES = [b"", b"644", b"06440", b"0648", b"064a", b"-644", b" 644", b"+644", b"0x1f", b"06 4", b"\xff644", b"7777",
+             b"0000", b"4755", b"1777"]
+# names a receiver must not follow out of DEST, names that only look dangerous, names with format directives (they end
+# up in error messages), long names
+SYS_NAMES = [b"..", b"/", b"a/../..", b"./", b"", b".", b"../x", b"x/..", b"a/b", b"/abs", b"//", b"..\0", b"..\0x",
+             b"a\0/../..", b"..\r", b"\r..", b".. ", b" ..", b"..\t", b"...", b"..x", b"-rf", b"--", b"%s%n%p%S%m%d%x",
+             b"%", b"E", b"T1 0 1 0", b"C0644 0 x", b"D0755 0 x", b"\1", b"\2", b"\\", b"sub", b"old", b"sub/", b"old/",
+             b"N" * 255, b"N" * 256, b"\xff\x80\xfe"]
+TRUNC_BASE = (b"T1234567890 0 1234567891 0\nD0750 0 nd\nT1234567892 0 1234567893 0\nC0640 5 f1\nhello\0E\n"
+              b"T1234567894 0 1234567895 0\nC0600 0 empty\n\0C0644 3 old\nxyz\0")
+AFTER = b"C0644 1 after\nZ\0"
+
+
+def systematic():
+    """The part of the input space EVERY run covers, whatever the seed (G1: a changed branch, boundary or error path of
+    the receiver must be noticed by a case that always runs, not by a lucky draw):
+    every record type x every field x every malformation (missing, non-digit, sign, blank, overflow at 2^31, 2^32, 2^63,
+    2^64 and beyond); T records in every position; every hostile / near-hostile / format-directive / long name in a
+    file record, in a directory record with a file inside, and meeting an existing file / directory; E records without
+    a D, more E than D; a stream that goes on after an error reply (with and without the refused file's data); declared
+    sizes at and around the transfer block with the data cut at the interesting places; enormous declared sizes with
+    short data; one rich stream truncated at EVERY byte; records at and around the size of the line buffer; nesting far
+    deeper than any fixed-size stack could hold, and paths growing beyond PATH_MAX; the option dimensions -p, -y, the
+    two ways the receiver is connected (one socket / two pipes), destination existing directory / file / missing."""
+    B = pcp.BUFSIZ
+    cs = []
+
+    def add(stream, **kw):
+        kw.setdefault("fd", len(cs) % 2)
+        cs.append(C(stream, **kw))
+    tdef = [b"1234567890", b"0", b"1234567891", b"0"]
+    # -- T record: every field, every malformation; followed by a file that would take the times, and one more file
+    for i in range(4):
+        for bad in BAD_NUMS:
+            f = list(tdef)
+            f[i] = bad
+            add(b"T" + b" ".join(f) + b"\nC0644 3 tf\nabc\0" + AFTER, p=1)
+    for t in (b"T\n", b"T1\n", b"T1 2\n", b"T1 2 3\n", b"T1 2 3 4 5\n", b"T1 2 3 4 \n", b"T1  2 3 4\n", b"T1 0 1 0\0x\n",
+              b"T1\t0 1 0\n", b"T1 999999 1 999999\n", b"T1 1000000 1 0\n", b"T1 0 1 1000000\n", b"T0 0 0 0\n",
+              b"T4102444800 0 4102444800 0\n", b"t1 0 1 0\n", b"TT1 0 1 0\n"):
+        add(t + b"C0644 3 tf\nabc\0" + AFTER, p=1)
+        add(t + b"D0755 0 td\nE\n" + AFTER, p=1)
+    # -- T records in every position
+    T = b"T1234567890 0 1234567891 0\n"
+    for st in (T, T + T, T + b"E\n", T + b"\2\n", T + b"\1msg\n" + b"C0644 1 a\nA\0", b"D0755 0 d\n" + T + b"E\n" + AFTER,
+               b"D0755 0 d\n" + T, b"D0755 0 d\nE\n" + T, b"C0644 1 a\nA\0" + T, b"C0644 3 a\nab" + T, T + b"X\n" + AFTER,
+               T + b"C0644 1 sub\n" + T + b"C0644 1 b\nB\0", T + b"D0755 0 old\n" + b"C0644 1 c\nC\0",
+               b"C0644 1 a\n" + T, b"C0644 1 a\nA" + T, T + b"D0755 0 d\n" + T + b"D0700 0 e\n" + T + b"C0600 1 f\nF\0E\nE\n" + T + AFTER):
+        for p in (0, 1):
+            add(st, p=p)
+    # -- C and D records: mode field, size field
+    for bad in BAD_MODES:
+        add(b"C" + bad + b" 3 cm\nabc\0" + AFTER)
+        add(b"D" + bad + b" 0 dm\n" + b"C0644 1 in\nI\0E\n" + AFTER, p=1)
+    for bad in BAD_NUMS:
+        add(b"C0644 " + bad + b" cs\nabc\0" + AFTER)
+        add(b"D0755 " + bad + b" ds\n" + b"C0644 1 in\nI\0E\n" + AFTER)
+    for rec in (b"C\n", b"D\n", b"C0644\n", b"C0644 \n", b"C0644 1\n", b"C0644 1 \n", b"C06441 x\n", b"C0644  1 x\n",
+                b"C0644\t1 x\n", b"C0644 1\tx\n", b"c0644 1 x\n", b" C0644 1 x\n", b"CC0644 1 x\n", b"D0755 0\n", b"D0755\n",
+                b"D0755 0 \n", b"\n", b"\0\n", b"\0", b"X\n", b"\xff\n"):
+        add(rec + b"Q\0" + AFTER)
+        add(b"D0755 0 lvl\n" + rec + b"Q\0E\n" + AFTER)
+    # -- names: as a file, as a directory with a file inside, under -p, with the destination given in different ways
+    for k, nm in enumerate(SYS_NAMES):
+        add(b"C0644 5 " + nm + b"\nhello\0" + AFTER)
+        add(b"D0755 0 " + nm + b"\nC0644 5 pwned\nhello\0E\n" + AFTER)
+        add(T + b"D0711 0 " + nm + b"\n" + T + b"C0604 5 pwned\nhello\0E\n" + T + AFTER, p=1,
+            dest=[b"dest", b"dest/", b"/o/w/dest", b"dest/sub", b"./dest"][k % 5])
+        add(b"D0755 0 in\nC0644 5 " + nm + b"\nhello\0D0700 0 " + nm + b"\nE\nE\n" + AFTER, prepop=False)
+    # -- E records
+    for st in (b"E\n", b"E\n" + AFTER, b"E\nE\n", b"D0755 0 d\nE\nE\n" + AFTER, b"D0755 0 d\nD0755 0 e\nE\nE\nE\n" + AFTER,
+               b"Exyz\n" + AFTER, b"D0755 0 d\nExyz\n" + AFTER, b"E", b"D0755 0 d\nE", b"\2\n" + AFTER, b"D0755 0 d\n\2\n" + AFTER,
+               b"\2", b"\1\n" + AFTER, b"\1", b"D0755 0 d\n" + AFTER + b"E\n" + AFTER + b"E\n" + AFTER):
+        add(st)
+        add(T + st, p=1)
+    # -- the stream goes on after an error reply
+    for bad in (b"C0644 3 sub\n", b"D0755 0 old\n", b"C0644 3 " + b"N" * 256 + b"\n", b"C0644 3 nodir/x\n", b"D0755 0 ../vdir\n"):
+        add(bad + AFTER)                                    # the sender skips the refused entry
+        add(bad + b"abc\0" + AFTER)                         # ... or sends its data anyway
+        add(bad + b"E\n" + AFTER)
+        add(b"D0755 0 d\n" + bad + AFTER + b"E\n" + AFTER, p=1)
+    # -- sizes around the transfer block, data complete / cut
+    for n in (0, 1, B - 1, B, B + 1, 2 * B - 1, 2 * B, 2 * B + 1, 3 * B):
+        data = bytes((i * 7 + n) & 255 for i in range(n))
+        add(b"C0644 %d blk\n" % n + data + b"\0" + AFTER)
+        add(b"C0644 %d old\n" % n + data + b"\0" + AFTER, p=1)           # over an existing (30 byte) file
+        add(b"C0644 %d bigold\n" % n + data + b"\0" + AFTER, bigold=True)  # over a longer file: truncated to size
+        for cut in sorted(set(x for x in (0, 1, B - 1, B, n - 1) if 0 <= x < n)):
+            add(b"C0644 %d cut\n" % n + data[:cut])
+        add(b"C0644 %d nonul\n" % n + data)
+        add(b"C0644 %d badresp\n" % n + data + b"\1" + AFTER)
+    for big in (b"2147483647", b"2147483648", b"4294967296", b"1099511627776", b"9223372036854775807"):
+        add(b"C0644 " + big + b" huge\n" + b"short data")
+        add(b"C0644 " + big + b" huge\n")
+        add(b"T1 0 1 0\nC0644 " + big + b" old\nxy", p=1)
+    # -- one rich stream cut at every byte
+    for k in range(len(TRUNC_BASE)):
+        add(TRUNC_BASE[:k], p=1)
+    for k in range(0, len(TRUNC_BASE), 3):
+        add(TRUNC_BASE[:k], p=0, y=1)
+    # -- records at and around the size of the line buffer
+    for n in (B - 13, B - 12, B - 11, B - 10, B - 9, B - 8, B, 2 * B - 11, 2 * B):
+        add(b"C0644 0 " + b"Z" * n + b"\n\0" + AFTER)
+        add(b"\1" + b"m" * n + b"\n" + AFTER)
+    add(b"T" + b"1" * (B + 5) + b" 0 1 0\n" + AFTER)
+    add(b"C0644 " + b"0" * (B + 5) + b"1 x\nA\0" + AFTER)
+    # -- depth: far beyond any fixed number of levels; paths beyond PATH_MAX
+    for depth in (40, 100):
+        add(b"".join(b"D0755 0 l\n" for _ in range(depth)) + b"C0644 4 leaf\ndeep\0" + b"E\n" * depth + AFTER, prepop=False)
+        if depth <= 40:     # (the model's file system is a chain of closures: a deep tree with times costs seconds)
+            add(T.join([b""] + [b"D0755 0 l\n"] * depth) + T + b"C0644 4 leaf\ndeep\0" + b"E\n" * (depth // 2), p=1, prepop=False)
+    add(b"".join(b"D0755 0 " + b"p" * 200 + b"\n" for _ in range(25)) + b"C0644 1 toolong\nX\0" + b"E\n" * 25 + AFTER, prepop=False)
+    # -- destination: existing directory / existing file / missing, with and without -y
+    for dest in (b"dest", b"dest/old", b"dest/missing", b"missing/x", b"victim", b".", b"..", b"dest/sub/", b"dest/old/"):
+        for y in (0, 1):
+            add(b"C0644 3 one\nabc\0", dest=dest, y=y)
+            add(b"C0644 3 one\nabc\0C0600 2 two\nxy\0", dest=dest, y=y, p=1)
+            add(b"D0755 0 dd\nC0644 3 one\nabc\0E\n", dest=dest, y=y)
+    return cs
+
+
 # --------------------------------------------------------------------------------------- running
 def op_line(jail, c):
     return "sink %s /%s %s %d %d %o %d %d %s" % (jail, CWD.decode(), hx(c["dest"]), c["p"], c["y"], c["um"], c["fd"],
@@ -389,8 +515,20 @@ def run_cases(ctx, exe, cases, cnt, var, cov, dist, distinct, tag="pcp_server()"
         jails.append(j)
         ents_l.append(ents)
     t0 = int(time.time())
-    impl = run_batch([exe], [[op_line(j, c)] for j, c in zip(jails, cases)], timeout=1200,
-                     env=dict(os.environ, ASAN_OPTIONS="detect_leaks=0"))
+    env = dict(os.environ, ASAN_OPTIONS="detect_leaks=0")
+    impl = run_batch([exe], [[op_line(j, c)] for j, c in zip(jails, cases)], timeout=1800, env=env)
+
+    def rerun(idx):
+        for k in idx:
+            shutil.rmtree(jails[k], ignore_errors=True)
+            pcp.build_jail(jails[k], ents_l[k])
+        return run_batch([exe], [[op_line(jails[k], cases[k])] for k in idx], timeout=1800, env=env)
+
+    def sig_of(a):
+        return pcp.fields(a[0][0]).get("sig") if a[0] else None
+    nre = pcp.retry_timeouts(impl, lambda a: sig_of(a) in ("998", "999"), lambda a: sig_of(a) == "997", rerun)
+    if nre:
+        dist["timeouts_retried"] = dist.get("timeouts_retried", 0) + nre
     mlines = ctx.model("pcp", "".join(model_line(c, e, cnt, var) + "\n" for c, e in zip(cases, ents_l)))
     judge(ctx, cases, jails, ents_l, [a[0] if a else "" for a, _ in impl], [cr for _, cr in impl], mlines, t0,
           cov, dist, distinct, tag, shrinker=lambda c, sig: shrink(ctx, exe, c, sig))
@@ -646,6 +784,7 @@ def run_binary(ctx, cases, cnt, var, cov, dist, distinct):
     use = [c for c in cases if c["stream"].count(b"..") <= 2 and c["dest"][:1] != b"/" and c["dest"].count(b"..") == 0]
     jails, ents_l, answers, crashes = [], [], [], []
     t0 = int(time.time())
+    hangs = 0
     for k, c in enumerate(use):
         ents = jail_entries(c["prepop"], c["destmode"], c.get("bigold", False))
         j = os.path.join(base, "j%d" % k)
@@ -655,19 +794,28 @@ def run_binary(ctx, cases, cnt, var, cov, dist, distinct):
         args = [pdcp_bin] + (["-p"] if c["p"] else []) + (["-y"] if c["y"] else []) + ["-z", os.fsdecode(c["dest"])]
         if c["dest"] == b"":
             args = None
-        try:
-            if args is None:
-                raise ValueError
-            p = subprocess.run(args, input=c["stream"], stdout=subprocess.PIPE, stderr=subprocess.PIPE, timeout=30,
-                               cwd=os.path.join(j, CWD.decode()),
-                               preexec_fn=lambda um=c["um"], fsz=c.get("fsz", 0): child_setup(um, fsz))
-            answers.append("rc=%d sig=%d san=0 replies=%s err=%s" % (max(p.returncode, 0), max(-p.returncode, 0),
-                                                                    hx(p.stdout), hx(p.stderr[-300:])))
-        except subprocess.TimeoutExpired:
-            answers.append("rc=-1 sig=998 san=0 replies=- err=-")
-        except ValueError:
-            answers.append(None)
         crashes.append(None)
+        if args is None or hangs >= 2:
+            answers.append(None)
+            continue
+        for attempt in (0, 1):
+            # a time-out alone is re-tried once (fresh jail) before it is reported
+            try:
+                p = subprocess.run(args, input=c["stream"], stdout=subprocess.PIPE, stderr=subprocess.PIPE, timeout=30,
+                                   cwd=os.path.join(j, CWD.decode()),
+                                   preexec_fn=lambda um=c["um"], fsz=c.get("fsz", 0): child_setup(um, fsz))
+                answers.append("rc=%d sig=%d san=0 replies=%s err=%s" % (max(p.returncode, 0), max(-p.returncode, 0),
+                                                                        hx(p.stdout), hx(p.stderr[-300:])))
+                break
+            except subprocess.TimeoutExpired:
+                if attempt == 0 and hangs == 0:
+                    dist["timeouts_retried"] = dist.get("timeouts_retried", 0) + 1
+                    shutil.rmtree(j, ignore_errors=True)
+                    pcp.build_jail(j, ents)
+                    continue
+                hangs += 1
+                answers.append("rc=-1 sig=998 san=0 replies=- err=-")
+                break
     keep = [i for i, a in enumerate(answers) if a is not None]
     use, jails, ents_l, answers, crashes = ([x[i] for i in keep] for x in (use, jails, ents_l, answers, crashes))
     mlines = ctx.model("pcp", "".join(model_line(c, e, cnt, var) + "\n" for c, e in zip(use, ents_l)))
@@ -705,8 +853,10 @@ def run(ctx):
         dist["receiver_variant"] = variant_text(var)
         dist["bp_cnt"] = cnt
         ctx.log("receiver variant:", dist["receiver_variant"], "bp->cnt =", cnt)
-        n = 1500 if ctx.quick() else 40000
-        cases = list(CORPUS)
+        n = 1000 if ctx.quick() else 40000
+        sysc = systematic()
+        dist["systematic_cases"] = len(sysc)
+        cases = list(CORPUS) + sysc
         if ctx.replay:
             import json
             rc = json.load(open(ctx.replay)).get("case", {})
